@@ -34,7 +34,16 @@ BEHS = {
     4: lambda i, argv: Beh(obey=None) if i % 2 == 0 else Beh(obey=0.15),
 }
 FOLLOW = (scen.EV_CHECK, scen.EV_INCR, scen.EV_DECR, scen.EV_SETNP, scen.EV_TIME, scen.EV_KILLCMD, scen.EV_SIGNALCMD,
-          scen.EV_SETOPT)
+          scen.EV_SETOPT, 'RESTART_OTHERS', 'START_OTHERS')
+
+
+def _follow(w, sc, ev, p):
+    # requests that name OTHER watchers by a pattern are not start requests for the stopped one
+    if ev == 'RESTART_OTHERS':
+        return w.call('restart', name='b*', waiting=True, max_time=20.0)
+    if ev == 'START_OTHERS':
+        return w.call('start', name='b*', waiting=True, max_time=20.0)
+    return sc.apply(ev, p)
 
 
 def c02_stop(when: int, d: int, v: int, f1: int, p1: int, f2: int, p2: int) -> bool:
@@ -81,7 +90,8 @@ def c02_stop(when: int, d: int, v: int, f1: int, p1: int, f2: int, p2: int) -> b
                 w.run_for(0.1)                                # the request arrives while the second worker is still to be spawned
         else:
             wa = w.mk_watcher('a', **scen.variant(var, numprocesses=S.get('n0', 2), graceful_timeout=0.2))
-            w.boot([wa, wb], check_delay=0.1 if var == 'max_age' else 1.0)
+            # (a third watcher, so that a pattern naming "the others" matches two of them)
+            w.boot([wa, wb, w.mk_watcher('b2', numprocesses=1, graceful_timeout=0.2)], check_delay=0.1 if var == 'max_age' else 1.0)
         if var == 'max_age':
             w.run_for(0.93)                 # the workers are about to expire: the next periodic checks will replace them
         started = set(p['pid'] for p in k.spawn_log if p['tag'] == 'a')
@@ -113,6 +123,13 @@ def c02_stop(when: int, d: int, v: int, f1: int, p1: int, f2: int, p2: int) -> b
                 w.run_until(lambda: bool(req.replies), max_time=60.0)
             k.injections = [i for i in k.injections if i.get('done')]
             if w.clock.tripped:
+                # a blocked loop is C05's subject -- unless the daemon blocked BECAUSE the stop left a survivor it never SIGKILLed
+                # (no other termination of these workers is in flight when `when` is 0)
+                never_killed = [p for p in started if k.procs[p].state == 'alive' and
+                                not [s_ for s_ in k.signal_log if s_['pid'] == p and s_['sig'] == 9]]
+                if when == 0 and never_killed and req_kind in (REQ_STOP, REQ_RESTART, REQ_RM, REQ_QUIT) and S.get('killfail') is None:
+                    rt.note('the %s blocked the daemon waiting for worker(s) %r which it signalled but never SIGKILLed', req_kind, never_killed)
+                    return rt.verdict(False)
                 return rt.skip()
             if S.get('killfail') is not None and req_kind == REQ_STOP and req.status != 'ok':
                 # the first stop was cut short by the failing signal delivery: a second stop request has to finish the job
@@ -139,7 +156,7 @@ def c02_stop(when: int, d: int, v: int, f1: int, p1: int, f2: int, p2: int) -> b
                     rt.note('status=%r numprocesses=%r', r.reply, n.reply)
                     ok = False
             if req_kind == REQ_QUIT:
-                for tag in ('a', 'b', 'c'):
+                for tag in ('a', 'b', 'b2', 'c'):
                     if k.workers(tag):
                         rt.note('quit left workers of %s: %r', tag, [p.pid for p in k.workers(tag)])
                         ok = False
@@ -161,10 +178,10 @@ def c02_stop(when: int, d: int, v: int, f1: int, p1: int, f2: int, p2: int) -> b
             # stopped stays stopped
             n_spawn = len([p for p in k.spawn_log if p['tag'] == 'a'])
             if S.get('K', 1) >= 1:
-                sc.apply(FOLLOW[f1], p1)
+                _follow(w, sc, FOLLOW[f1], p1)
                 w.run_for(0.3)
             if S.get('K', 1) >= 2:
-                sc.apply(FOLLOW[f2], p2)
+                _follow(w, sc, FOLLOW[f2], p2)
                 w.run_for(0.3)
             sc.settle(checks=2)
             if len([p for p in k.spawn_log if p['tag'] == 'a']) != n_spawn:
@@ -339,7 +356,7 @@ def plan(tier):
         Cond('c02_stop', shards=sh, budget=150 if q else 1200, twins=3,
              bounds={'req': 'S{stop, restart, rm, quit, rm nostop (negative control)}', 'when': 'S{quiescent, kill request in flight}',
                      'd': 'R[0,dmax] kernel call of an injected SIGKILL death inside the stop sequence', 'v': 'S{0,1}',
-                     'f1,f2': 'S: follow-up event from {check, incr, decr, set numprocesses, time, kill, signal, set args/env/working_dir/max_age}', 'p1,p2': 'R[-1,2]',
+                     'f1,f2': 'S: follow-up event from {check, incr, decr, set numprocesses, time, kill, signal, set args/env/working_dir/max_age, restart / start of the other watchers by pattern}', 'p1,p2': 'R[-1,2]',
                      'beh': 'S{obey, obey 0.15 s, ignore, obey 0.3 s (past timeout), mixed}', 'var': 'S{default, graceful_timeout 0, max_age 1 s, on_demand (stop during its background start / after one worker died)}',
                      'killfail': 'S: the n-th signal delivery of the stop fails with EPERM, then the stop is requested again', 'n0': 'S{1,2}'}),
     ]
